@@ -190,16 +190,17 @@ ConfViol(e, pre) ==
 \* number of steps compared (for the evidence)
 Compared(e) == SnOnly /\ NoTime /\ e.a \in {"W2S", "Cancel", "Lose", "S2W", "Exit", "Schedule", "Submit"}
 
-ConfInit == TraceInit /\ panic = "" /\ wkq = <<>> /\ submitted = {} /\ budget = <<>> /\ armedFail = {} /\ drift = {} /\ journal = <<>> /\ late = {} /\ ncomp = 0 /\ pf = [reserve |-> 0, max |-> 1]
+ConfInit == TraceInit /\ panic = "" /\ wkq = <<>> /\ submitted = {} /\ budget = <<>> /\ armedFail = {} /\ drift = {} /\ journal = <<>> /\ late = {} /\ ncomp = 0 /\ pf = [reserve |-> 0, max |-> 1, slow |-> FALSE]
 
 ConfNext ==
   /\ UNCHANGED <<panic, wkq, submitted, budget, armedFail, drift, journal, late>>
   /\ l <= Len(Rec)
   /\ LET e == Rec[l]
          live == alive /\ e.a # "Reset" /\ e.pan = 0 /\ l > 1
-         cv == IF live THEN ConfViol(e, Rec[l - 1].st) ELSE {}
-     IN /\ pf' = IF e.a = "Reset" THEN [reserve |-> e.args.profile.reserve, max |-> e.args.profile.pf_max] ELSE pf
-        /\ ncomp' = ncomp + (IF live /\ Compared(e) THEN 1 ELSE 0)
+         \* (runs in which a stopped execution dies at a later step are not compared: the model lets it end at once)
+         cv == IF live /\ ~pf.slow THEN ConfViol(e, Rec[l - 1].st) ELSE {}
+     IN /\ pf' = IF e.a = "Reset" THEN [reserve |-> e.args.profile.reserve, max |-> e.args.profile.pf_max, slow |-> e.args.profile.slow_stop] ELSE pf
+        /\ ncomp' = ncomp + (IF live /\ ~pf.slow /\ Compared(e) THEN 1 ELSE 0)
         /\ TraceNextWith({V(n, e) : n \in cv})
 
 ConfSpec == ConfInit /\ [][ConfNext]_<<cvars, ncomp, pf>>
